@@ -8,6 +8,8 @@ From LV Require Import Base.Bytes Model.Obj Model.Crypto.Word Model.Crypto.RC4 M
   Model.Crypto.Handler Proofs.CryptoProofs Proofs.CryptoProofsFilter Proofs.CryptoProofsObject
   Proofs.CryptoProofsDoc Proofs.CryptoProofsExamples Proofs.CryptoProofsAES Model.Crypto.Concrete
   Proofs.CryptoProofsSHA Proofs.IsoProofsDoc2 Proofs.IsoProofsDoc7 Proofs.CryptoProofsAuth Proofs.CryptoProofsRT.
+(* the composition with property C01 (save and reload) *)
+From LV Require Model.Loader Model.LoaderCrypt Spec.SaveSpec Proofs.LoadProofsXref Proofs.ComposeCrypt.
 
 (* lopdf's RC4: decrypting what was encrypted under the same key gives the message back, for every key
    the constructor accepts (1..256 bytes; any other length panics = None) and every message *)
@@ -305,6 +307,89 @@ Theorem C05_example_pkcs5 :
   pkcs5_pad (bs "abc") = bs "abc" ++ repeat x0d 13.
 Proof. split; vm_compute; reflexivity. Qed.
 
+(* ---------------- after save and reload: composition with property C01 ----------------
+   (Proofs/ComposeCrypt.v; the loader with the Encrypt branch is Model/LoaderEnc.v, its decrypt attempt instantiated
+   with this security handler in Model/LoaderCrypt.v: [load_crypt P can] = Document::load_mem, which ends with
+   `if document.authenticate_password("").is_ok() { document.decrypt("")?; }`.)
+
+   d: the plain document; d1 = Document::encrypt of d under the state made from version v; the file
+   [so_bytes (save xt d1)] in either cross-reference format xt.  Then
+     (1) the reader reads the file back to [reloaded xt d1] -- C01's reloaded document: d1's objects in normal form,
+         the cross-reference stream object in the stream format -- and hands exactly that to the decrypt attempt;
+     (2) if the empty password does not authenticate ([authenticate_password P d1 [] = Err e]: the user password is not
+         empty; that the empty password then fails Algorithm 6 / 11 / 12 is the cryptographic part) the load returns
+         [reloaded xt d1], still encrypted;
+     (3) Document::decrypt on that document with the user or the owner password ([right_password], as in
+         C05_document_rt) returns Ok and leaves a document d2 that is d in the sense of property C01 ([same_doc]: same
+         version, every object of d in normal form under its identifier apart from cross-reference stream objects, every
+         trailer entry of d in normal form apart from cross-reference bookkeeping), without an Encrypt entry, with d's
+         binary mark; the recovered state is equivalent to the one that encrypted;
+     (4) if the empty password IS a right password (empty user password) the load itself returns such a d2.
+   Side conditions that remain: C05_document_rt's own (laws of the primitives, [version_in_domain], [max_id_ok], no
+   stale Encrypt entry); the objects of d are in C01's domain (top_wf: Length = content length, direct objects inside;
+   not of a type the writer drops); and the ENCRYPTED document is in the writer's domain, [savable_enc d1] (u32 room for
+   the numbers, binary mark, version line, strictly increasing object numbers, well-formed objects and trailer -- each a
+   restriction by type of lopdf's data, see notes/C01.md), outside C01's known class ([known_deep d1 = false]) and below
+   4 GiB ([small_file xt d1]). *)
+Theorem C05_encrypt_save_load_decrypt :
+  forall P,
+    (forall m, length (p_md5 P m) = 16%nat) -> aes_ok P ->
+    (forall m, length (p_sha256 P m) = 32%nat) -> (forall m, length (p_sha384 P m) = 48%nat) ->
+    (forall m, length (p_sha512 P m) = 64%nat) ->
+  forall can xt d v rnd ivs st d1,
+    version_in_domain v -> max_id_ok d -> dict_get (d_trailer d) K_Encrypt = None ->
+    try_from_version P d v rnd = Ok st -> doc_encrypt P st d ivs = DOk d1 tt ->
+    Forall (fun io : oid * obj => SaveSpec.top_wf (snd io) /\ Model.Save.skipped (snd io) = false) (d_objects d) ->
+    SaveSpec.savable_enc d1 -> SaveSpec.known_deep d1 = false -> SaveSpec.small_file xt d1 ->
+    exists x : Model.Save.xmap, Forall LoadProofsXref.normal_ok x /\
+      LoaderCrypt.load_crypt P can (Model.Save.so_bytes (Model.Save.save xt d1)) =
+        LoaderCrypt.after_crypt P (LoadProofsXref.conv_map x) (SaveSpec.reloaded xt d1) (SaveSpec.xtype_of xt) /\
+      (forall e, LoaderCrypt.authenticate_password P d1 [] = Err e ->
+         LoaderCrypt.load_crypt P can (Model.Save.so_bytes (Model.Save.save xt d1)) = LoaderCrypt.CLoad (Loader.LOk (SaveSpec.reloaded xt d1) (SaveSpec.xtype_of xt))) /\
+      (forall xr pw, right_password P d1 v pw ->
+         exists d2 st', doc_decrypt_x P xr (SaveSpec.reloaded xt d1) pw = DOk d2 st' /\ st_equiv st st' /\
+                        SaveSpec.same_doc d d2 /\ dict_get (d_trailer d2) K_Encrypt = None /\
+                        d_binary_mark d2 = d_binary_mark d) /\
+      (right_password P d1 v [] ->
+         exists d2, LoaderCrypt.load_crypt P can (Model.Save.so_bytes (Model.Save.save xt d1)) = LoaderCrypt.CLoad (Loader.LOk d2 (SaveSpec.xtype_of xt)) /\
+                    SaveSpec.same_doc d d2 /\ dict_get (d_trailer d2) K_Encrypt = None /\
+                    d_binary_mark d2 = d_binary_mark d).
+Proof. exact ComposeCrypt.encrypt_save_load_decrypt. Qed.
+
+(* the same for the executable model, with no hypothesis on the primitives *)
+Theorem C05_encrypt_save_load_decrypt_concrete :
+  forall dec, let P := concrete_with dec in
+  forall can xt d v rnd ivs st d1,
+    version_in_domain v -> max_id_ok d -> dict_get (d_trailer d) K_Encrypt = None ->
+    try_from_version P d v rnd = Ok st -> doc_encrypt P st d ivs = DOk d1 tt ->
+    Forall (fun io : oid * obj => SaveSpec.top_wf (snd io) /\ Model.Save.skipped (snd io) = false) (d_objects d) ->
+    SaveSpec.savable_enc d1 -> SaveSpec.known_deep d1 = false -> SaveSpec.small_file xt d1 ->
+    exists x : Model.Save.xmap, Forall LoadProofsXref.normal_ok x /\
+      LoaderCrypt.load_crypt P can (Model.Save.so_bytes (Model.Save.save xt d1)) =
+        LoaderCrypt.after_crypt P (LoadProofsXref.conv_map x) (SaveSpec.reloaded xt d1) (SaveSpec.xtype_of xt) /\
+      (forall e, LoaderCrypt.authenticate_password P d1 [] = Err e ->
+         LoaderCrypt.load_crypt P can (Model.Save.so_bytes (Model.Save.save xt d1)) = LoaderCrypt.CLoad (Loader.LOk (SaveSpec.reloaded xt d1) (SaveSpec.xtype_of xt))) /\
+      (forall xr pw, right_password P d1 v pw ->
+         exists d2 st', doc_decrypt_x P xr (SaveSpec.reloaded xt d1) pw = DOk d2 st' /\ st_equiv st st' /\
+                        SaveSpec.same_doc d d2 /\ dict_get (d_trailer d2) K_Encrypt = None /\
+                        d_binary_mark d2 = d_binary_mark d) /\
+      (right_password P d1 v [] ->
+         exists d2, LoaderCrypt.load_crypt P can (Model.Save.so_bytes (Model.Save.save xt d1)) = LoaderCrypt.CLoad (Loader.LOk d2 (SaveSpec.xtype_of xt)) /\
+                    SaveSpec.same_doc d d2 /\ dict_get (d_trailer d2) K_Encrypt = None /\
+                    d_binary_mark d2 = d_binary_mark d).
+Proof.
+  intros dec P. apply (ComposeCrypt.encrypt_save_load_decrypt P);
+    [exact md5_len16 | exact (concrete_with_aes_ok dec) | exact sha256_length | exact sha384_length | exact sha512_length].
+Qed.
+
+(* the part that is only about Document::decrypt: on the SaveSpec.reloaded encrypted document it does what it does on the
+   encrypted document, on normal forms -- decrypt_object commutes with C01's normal form of objects *)
+Theorem C05_decrypt_commutes_with_normal_form :
+  forall P st id o,
+    decrypt_object P st id (Proofs.ObjectRtProofs.norm_obj o) =
+    match decrypt_object P st id o with Ok o' => Ok (Proofs.ObjectRtProofs.norm_obj o') | Err e => Err e | Panic => Panic end.
+Proof. exact ComposeCrypt.decrypt_norm. Qed.
+
 Print Assumptions C05_rc4_involutive.
 Print Assumptions C05_rc4_total.
 Print Assumptions C05_pkcs5_unpad_pad.
@@ -338,3 +423,6 @@ Print Assumptions C05_example_pkcs5.
 Print Assumptions C05_example_document.
 Print Assumptions C05_example_rt_hypotheses.
 Print Assumptions C05_example_objstm.
+Print Assumptions C05_encrypt_save_load_decrypt.
+Print Assumptions C05_encrypt_save_load_decrypt_concrete.
+Print Assumptions C05_decrypt_commutes_with_normal_form.
